@@ -83,6 +83,7 @@ def load_store_chunk(
     lock: Any,
     return_stored: bool,
     load_stored: bool,
+    target_id: int | None = None,
 ) -> Any:
     """
     A function inserted in a Dask graph for storing a chunk.
@@ -102,6 +103,9 @@ def load_store_chunk(
     load_stored: bool
         Whether to return the array stored in ``out``.
         Ignored if ``return_stored`` is not ``True``.
+    target_id: int, optional
+        Identity of ``out``; unused here, it only keeps the tasks of two
+        targets with equal content apart.
 
     Returns
     -------
@@ -299,6 +303,10 @@ def store(
                 lock=lock,
                 return_stored=return_stored,
                 load_stored=load_stored,
+                # A target is a place to write to, not a value: two targets with
+                # equal content (two fresh np.zeros(n)) tokenize alike, and the two
+                # store nodes would collapse into one, leaving one target unwritten.
+                target_id=id(t),
                 name="store-map",
                 meta=s._meta,
             )
